@@ -3,6 +3,12 @@
 # confirmed seeded change under seeded/<Cxx>-<V>/patch.diff is applied to a scratch copy of
 # /repo and the property's check must report a VIOLATION. Prints one line per mutant.
 cd /verif
+# work on a snapshot of /repo and of the checker, so that edits made while this runs do not matter
+export SELFTEST_SNAP=$(mktemp -d /tmp/selftest_snap.XXXXXX)
+trap 'rm -rf "$SELFTEST_SNAP"' EXIT
+rsync -a --exclude .git /repo/ "$SELFTEST_SNAP/repo/"
+mkdir -p "$SELFTEST_SNAP/verif"
+rsync -a --exclude .git --exclude engine --exclude seeded --exclude evidence --exclude replays /verif/ "$SELFTEST_SNAP/verif/"
 killed=0; total=0
 run() { # patch prop label
   total=$((total+1))
